@@ -18,7 +18,7 @@ CONFIG = {
                 "every acknowledged database present, survivors equal to the model applied to the acknowledged log. The same model and an executable spec are evaluated in Coq against the real storeFSM (Snapshot, further commands, Persist, Restore "
                 "into a fresh store, replay), the real Persist against fault-injecting sinks (in memory and a real raft.FileSnapshotStore in a temp directory: what List()/Open() give a restart) "
                 "and the real validateCommand/Apply on designed + generated inputs.",
-        "note": "Trusts Coq kernel, genconsts translator, the harness and its canonical dump; RaftLog (raft's guarantees) is an assumption, validated only by the thorough-tier soak; "
+        "note": "Trusts Coq kernel, genconsts translator, the harness and its canonical dump; RaftLog (raft's guarantees) is an assumption, validated by a short real-raft soak in both tiers (three meta.Service nodes: acknowledged commands, forced raft snapshots on two nodes, more commands, restart of the whole cluster from snapshot + log suffix, one more command; every node must equal the model applied to the acknowledged log) and by longer random soaks in the thorough tier; "
                 "protobuf wire encoding = identity on the generated structs (Section hypothesis); privilege-map iteration order not modelled (compared as sets); "
                 "everything C06 trusts (sort stability, excluded legacy commands, shared RetentionAutoCreate).",
         "technique": "Coq proof (round-trip by structural induction, invariant preservation per command, refinement + frame lemmas for a heap machine with aliasing, "
